@@ -1,6 +1,6 @@
 """What MANIFEST.json says about each claimed property (level text and trusted-base note)."""
 
-HOOK_COMMITS = ["3294ba2", "bc53046"]
+HOOK_COMMITS = ["3294ba2", "bc53046", "012ac7c"]
 
 NOT_APPLICABLE = {}
 
@@ -17,7 +17,22 @@ _CALLS = (" Static tie for the wake-up side: every atomic operation, inner-mutex
 _ATLOG = (" The atomic-operation log is part of the comparison: under hook H3 the crate's atomics record every operation "
           "on the state words (kind, operands, Orderings, value returned); the model lists, for every branch of every "
           "step, the atomic operations it stands for (lean/ALock/AtomTrace*.lean) and the two sequences are compared after "
-          "every operation (field at).")
+          "every operation (field at). For Mutex, Semaphore and RwLock it is a theorem (C01_poll_atoms, C03_step_atoms / "
+          "C03_run_atoms, C02_step_atoms / C02_run_atoms, C11_conv_atoms) that replaying the listed operations on the old "
+          "word(s) is consistent (each sees its predecessor's value, a CAS succeeds exactly on its expected value) and "
+          "yields the model's new word(s), for every state and operation.")
+
+_INJ = (" Behavioural tie of the interleaving model (preemption injection): under hook H4 the harness preempts one call of "
+        "the real crate immediately before each of its atomic operations and runs complete calls of other agents there "
+        "(exactly the schedule 'A preempted after k atomic operations, B runs, A resumes', deterministically, for every "
+        "prefix history up to a depth, every call, every k, every injected call); the recorded atomic operations, "
+        "attributed to their agents, are replayed in an acceptor of the atomic-granularity model "
+        "(lean/ALock/Atomic/Accept.lean): each must be the step the agent's program counter allows and must have "
+        "observed what the model says (value returned, CAS success), each return value must match the agent's final "
+        "program counter. Theorem *_accepted: an accepted trace is a run of the model, so the interleaving theorems "
+        "hold of it. A rejected trace = the code's control flow between atomic sites (retry loops, early returns) is not "
+        "the model's; the harness's own monitors (two guards alive, permits over-issued, try_* failing on an idle lock, "
+        "a reader admitted past a pending writer) turn it into a concrete failing schedule.")
 
 _SEARCH = (" Beyond the theorems (search aid, not part of the proof level): small concurrent scenarios of this property "
            "are run against the real crate under loom 0.7 (all interleavings up to a preemption bound, C11 memory model; "
@@ -39,15 +54,15 @@ CLAIMS = {
         "technique": "Lean 4 theorems (reachability in a capability graph; decide over the complete finite table) about a table regenerated from rustc's verdicts on /repo on every run",
     },
     "C01": {
-        "text": "Exclusion (at most one guard; the state word equals guards + 2*starved operations; a guard is only handed out when none is alive) is a Lean theorem over every finite history of the poll-granular Mutex model: every mix of lock/lock_arc/try_lock/try_lock_arc, cancellation at any point, the 0.5 ms branch taken or not at every evaluation point. " + _TIE + " Compared fields: outcome and state word." + _ATOM + " Theorems: C01_interleaved (exclusion and the word invariant under every interleaving, whatever the orderings) and C01_hb (release/acquire views: whoever holds the mutex has every earlier critical section in its view, i.e. release happens-before the next acquire, given the orderings of the table)." + _ATLOG + _SEARCH,
-        "note": "PARTIAL: the interleaving model covers the word protocol (not the control flow between sites, which the poll-granular differential run exercises); memory model = release/acquire with RMW release sequences. event-listener is modelled, not verified.",
+        "text": "Exclusion (at most one guard; the state word equals guards + 2*starved operations; a guard is only handed out when none is alive) is a Lean theorem over every finite history of the poll-granular Mutex model: every mix of lock/lock_arc/try_lock/try_lock_arc, cancellation at any point, the 0.5 ms branch taken or not at every evaluation point. " + _TIE + " Compared fields: outcome and state word." + _ATOM + " Theorems: C01_interleaved (exclusion and the word invariant under every interleaving, whatever the orderings) and C01_hb (release/acquire views: whoever holds the mutex has every earlier critical section in its view, i.e. release happens-before the next acquire, given the orderings of the table)." + _ATLOG + _SEARCH + _INJ,
+        "note": "PARTIAL: the interleaving model covers the word protocol; the control flow between its sites is tied to the code by the poll-granular differential run and, under preemption, by the acceptor (bounded: one preempted call, up to two injected calls, same thread); memory model = release/acquire with RMW release sequences. event-listener is modelled, not verified.",
     },
     "C02": {
-        "text": "Exclusion (at most one write guard and then no other guard; at most one upgradable guard) is a Lean theorem over every finite history of the poll-granular RwLock model over the full alphabet (start/poll/cancel of read, upgradable_read, write and upgrade futures, borrowed and Arc; try_*; upgrade; try_upgrade; the three downgrades; guard drops). The invariant WordInv determines both words exactly: mutex.state = (W+U+PW+PU) + 2*starved, state = (W+PW+PU) + 2*(R+U), W+U+PW+PU <= 1, a write guard is alone. " + _TIE + " Compared fields: outcome and both state words." + _ATOM + " Theorems: C02_interleaved (at most one writer, a writer excludes every shared access - including a write guard in the middle of downgrade_write -, at most one upgradable guard, under every interleaving incl. the states inside an operation), C02_interleaved_word, C02_hb (release/acquire views over the same agents: every write section happens-before every later access, every read section before every later write guard; the ten synchronising orderings come from the table, C02_ord_ok)." + _ATLOG + _SEARCH,
-        "note": "PARTIAL: the interleaving models cover the word protocol (not the control flow between sites); happens-before (C02_hb) in the release/acquire fragment. Reader-count overflow aborts are outside the models.",
+        "text": "Exclusion (at most one write guard and then no other guard; at most one upgradable guard) is a Lean theorem over every finite history of the poll-granular RwLock model over the full alphabet (start/poll/cancel of read, upgradable_read, write and upgrade futures, borrowed and Arc; try_*; upgrade; try_upgrade; the three downgrades; guard drops). The invariant WordInv determines both words exactly: mutex.state = (W+U+PW+PU) + 2*starved, state = (W+PW+PU) + 2*(R+U), W+U+PW+PU <= 1, a write guard is alone. " + _TIE + " Compared fields: outcome and both state words." + _ATOM + " Theorems: C02_interleaved (at most one writer, a writer excludes every shared access - including a write guard in the middle of downgrade_write -, at most one upgradable guard, under every interleaving incl. the states inside an operation), C02_interleaved_word, C02_hb (release/acquire views over the same agents: every write section happens-before every later access, every read section before every later write guard; the ten synchronising orderings come from the table, C02_ord_ok)." + _ATLOG + _SEARCH + _INJ,
+        "note": "PARTIAL: the interleaving models cover the word protocol; the control flow between sites under preemption is tied by the acceptor (bounded: one preempted call, up to two injected calls, same thread); happens-before (C02_hb) in the release/acquire fragment. Reader-count overflow aborts are outside the models.",
     },
     "C11": {
-        "text": "The slot invariant (at most one of write guard / upgradable guard / writer waiting for readers / pending upgrade, at every state of every history), the fact that try_upgrade, upgrade() and downgrade_to_upgradable never touch the inner mutex, and 'a pending upgrade excludes writers and upgradable readers' are Lean theorems on the poll-granular RwLock model. " + _TIE + " Compared fields: outcome and both state words; monitors C11 (slot word) and C02." + _ATOM + " Theorems: C11_interleaved_slot (the inner mutex never has two holders, under every interleaving), C11_interleaved_downgrade (between the two atomic steps of downgrade_write, and while an upgradable guard or a pending upgrade exists, there is no writer and the inner mutex is not available)." + _ATLOG + _SEARCH,
+        "text": "The slot invariant (at most one of write guard / upgradable guard / writer waiting for readers / pending upgrade, at every state of every history), the fact that try_upgrade, upgrade() and downgrade_to_upgradable never touch the inner mutex, and 'a pending upgrade excludes writers and upgradable readers' are Lean theorems on the poll-granular RwLock model. " + _TIE + " Compared fields: outcome and both state words; monitors C11 (slot word) and C02." + _ATOM + " Theorems: C11_interleaved_slot (the inner mutex never has two holders, under every interleaving), C11_interleaved_downgrade (between the two atomic steps of downgrade_write, and while an upgradable guard or a pending upgrade exists, there is no writer and the inner mutex is not available)." + _ATLOG + _SEARCH + _INJ,
         "note": "PARTIAL: atomic calls; the value clause is derived from exclusive access (C02) rather than from a payload model.",
     },
     "C06": {
@@ -59,27 +74,27 @@ CLAIMS = {
         "note": "PARTIAL: atomic polls (the embedded mutex's slow path and thread interleavings are not exercised by this model); wait_blocking not modelled.",
     },
     "C10": {
-        "text": "The state words of Mutex, Semaphore and RwLock are proved to account exactly for the operations that are alive, and every registered listener to belong to a live operation, at every state of every history in which futures are dropped at any moment (never polled, pending, notified, completed). Drain theorems: once no future and no guard is alive the words are zero / every issued permit is back, all event queues are empty, and try_lock / try_write / try_acquire (all permits) succeed. " + _TIE + _ATLOG + _SEARCH,
+        "text": "The state words of Mutex, Semaphore and RwLock are proved to account exactly for the operations that are alive, and every registered listener to belong to a live operation, at every state of every history in which futures are dropped at any moment (never polled, pending, notified, completed). Drain theorems: once no future and no guard is alive the words are zero / every issued permit is back, all event queues are empty, and try_lock / try_write / try_acquire (all permits) succeed. " + _TIE + _ATLOG + _SEARCH + _INJ,
         "note": "PARTIAL: 'as if never started' is claimed as exact accounting and equal grants, not trace equality; atomic calls; the thread race 'drop a pending future while another thread releases' is not covered by the theorems.",
     },
     "C12": {
-        "text": "At every quiescent state of every history with a polled pending write() or a pending upgrade and no write/upgradable guard alive, the writer bit is set (theorem C12); in any state with the bit set try_read fails and polls of read() futures return Pending; nothing a reader does changes the bit - Lean theorems on the poll-granular RwLock model. " + _TIE + " The harness additionally probes try_read on the implementation at every such quiescent point." + _ATLOG + _SEARCH,
+        "text": "At every quiescent state of every history with a polled pending write() or a pending upgrade and no write/upgradable guard alive, the writer bit is set (theorem C12); in any state with the bit set try_read fails and polls of read() futures return Pending; nothing a reader does changes the bit - Lean theorems on the poll-granular RwLock model. " + _TIE + " The harness additionally probes try_read on the implementation at every such quiescent point." + _ATLOG + _SEARCH + _INJ,
         "note": "PARTIAL: atomic polls; the 'lasts until' clause is stated as: only a writer's release/downgrade or the cancellation of the waiting writer can clear the bit.",
     },
     "C14": {
-        "text": "Exact characterisations, at every reachable state of the three models, of when each try_* succeeds (try_lock: no guard and nobody starved; try_read: no write guard / waiting writer / pending upgrade; try_upgradable_read: slot free and nobody starved; try_write: that and no reader; try_upgrade: no other reader; try_acquire: a permit is available), that none of them registers a listener, and that all succeed when nothing is alive - Lean theorems (corollaries of the word invariants). " + _TIE + " try_* ops are part of the exhaustive alphabet, so they probe the implementation after every prefix." + _ATLOG,
-        "note": "PARTIAL: atomic calls; 'never succeeds in conflict' under interleavings not yet covered by a theorem.",
+        "text": "Exact characterisations, at every reachable state of the three models, of when each try_* succeeds (try_lock: no guard and nobody starved; try_read: no write guard / waiting writer / pending upgrade; try_upgradable_read: slot free and nobody starved; try_write: that and no reader; try_upgrade: no other reader; try_acquire: a permit is available), that none of them registers a listener, and that all succeed when nothing is alive - Lean theorems (corollaries of the word invariants). " + _TIE + " try_* ops are part of the exhaustive alphabet, so they probe the implementation after every prefix." + _ATLOG + _INJ,
+        "note": "PARTIAL: atomic calls in the poll-granular model; 'never succeeds in conflict' under interleavings is C14_accepted_* (the interleaving theorems applied to the recorded, accepted executions of the crate under preemption injection - bounded: one preempted call, up to two injected calls).",
     },
     "C15": {
         "text": "In the models the strong count is a counter updated exactly where the code clones, moves or drops the Arc; Lean theorems state that after every history (Mutex, Semaphore, RwLock; conversions, forget, cancellation at any point, handles cloned and dropped down to zero) it equals user handles + owned guards alive + owning futures (lock_arc until completion, UpgradeArc until completion or drop, acquire_arc until drop), hence never over-releases, and is zero exactly when none is left. " + _TIE + " Compared fields: outcome, Arc::strong_count, and the payload's drop counter (dropped exactly once)." + " Search aid: the harness replays last-owner histories and random ones under Miri (use-after-free, leaks)." + _ATLOG,
         "note": "Arc is modelled, not verified. A memory error that leaves the count unchanged (e.g. unlocking through a dangling reference after the Arc was freed) is outside the theorems; the Miri run searches for it.",
     },
     "C03": {
-        "text": "Conservation, no over-issue, exactness of try_acquire and the per-operation permit deltas are Lean theorems over every initial count and every finite operation sequence of the poll-granular Semaphore model (induction on the history). " + _TIE + " Compared fields: outcome and permit counter." + _ATOM + " Theorems: C03_interleaved_conservation / _no_overissue (racing try_acquire CAS loops incl. spurious weak-CAS failures, concurrent add_permits, drops, forgets)." + _ATLOG + _SEARCH,
+        "text": "Conservation, no over-issue, exactness of try_acquire and the per-operation permit deltas are Lean theorems over every initial count and every finite operation sequence of the poll-granular Semaphore model (induction on the history). " + _TIE + " Compared fields: outcome and permit counter." + _ATOM + " Theorems: C03_interleaved_conservation / _no_overissue (racing try_acquire CAS loops incl. spurious weak-CAS failures, concurrent add_permits, drops, forgets)." + _ATLOG + _SEARCH + _INJ,
         "note": "PARTIAL: usize wrap-around outside the models (Nat); the interleaving model covers the counter protocol, not the wake-up side.",
     },
     "C04": {
-        "text": "Lean theorems over every finite history of the poll-granular OnceCell model (any number of wait/get_or_init/get_or_try_init/set callers, initialisers resolved ok/err/panic or cancelled at any await point in any order, take between epochs): at most one initialiser runs and none once initialised (state 1 iff exactly one live caller holds the guard; a value is stored iff state 2); a stored value is never replaced until take/drop; whatever a completed caller reports is the stored value; set hands its argument back exactly when its closure did not run; take re-opens the cell; every payload instance is in exactly one place at any time and is dropped exactly once (C04_accounting, C04_dropped_once). " + _TIE + " Compared fields: outcome (incl. reported value), state word, stored value, drop count." + _ATOM + " Theorems: C04_interleaved_single (one initialiser under every interleaving), C04_publication (whoever reads state == Initialized has the ptr::write of the stored value in its view, given store Release / load Acquire from the table)." + _SEARCH,
+        "text": "Lean theorems over every finite history of the poll-granular OnceCell model (any number of wait/get_or_init/get_or_try_init/set callers, initialisers resolved ok/err/panic or cancelled at any await point in any order, take between epochs): at most one initialiser runs and none once initialised (state 1 iff exactly one live caller holds the guard; a value is stored iff state 2); a stored value is never replaced until take/drop; whatever a completed caller reports is the stored value; set hands its argument back exactly when its closure did not run; take re-opens the cell; every payload instance is in exactly one place at any time and is dropped exactly once (C04_accounting, C04_dropped_once). " + _TIE + " Compared fields: outcome (incl. reported value), state word, stored value, drop count." + _ATOM + " Theorems: C04_interleaved_single (one initialiser under every interleaving), C04_publication (whoever reads state == Initialized has the ptr::write of the stored value in its view, given store Release / load Acquire from the table)." + _SEARCH + _INJ,
         "note": "PARTIAL: blocking forms are outside the models (loom scenarios only); atomic polls in the poll-granular model.",
     },
     "C08": {
